@@ -51,6 +51,9 @@ func (h *H) report(sub string, f *fail, c any) bool {
 	return false
 }
 
+// shrinkTime bounds rapid's shrinking phase (a check with expensive failing cases lowers it).
+var shrinkTime = "20s"
+
 // replayers maps "<property>/<sub>" to a function that re-executes a
 // serialised case without any library in between.
 var replayers = map[string]func(raw json.RawMessage) *fail{}
@@ -81,7 +84,7 @@ func rapidCases[C any](h *H, sub string, n int, gen func(rt *rapid.T) C, run fun
 	flag.Set("rapid.checks", strconv.Itoa(n))
 	flag.Set("rapid.seed", strconv.FormatUint(h.Env.Mix(sub), 10))
 	flag.Set("rapid.nofailfile", "true")
-	flag.Set("rapid.shrinktime", "20s")
+	flag.Set("rapid.shrinktime", shrinkTime)
 	ok := h.t.Run(sub, func(t *testing.T) {
 		rapid.Check(t, func(rt *rapid.T) {
 			c := gen(rt)
